@@ -81,8 +81,22 @@ class Node:
         return "Node(level=%s%s%s)" % (lv_show(self.level), ", checked" if self.checked else "", ", admitted" if self.admitted else "")
 
 
+class OptNode:
+    """a node or None (`children[0] if children else None`): usable as a node only behind an `is None` test"""
+    __slots__ = ("node",)
+
+    def __init__(self, node):
+        self.node = node
+
+    def key(self):
+        return ("optnode",) + self.node.key()
+
+    def __repr__(self):
+        return "Opt%r" % (self.node,)
+
+
 def vkey(v):
-    return v.key() if isinstance(v, (Seq, Node)) else v
+    return v.key() if isinstance(v, (Seq, Node, OptNode)) else v
 
 
 def vjoin(a, b):
@@ -96,6 +110,12 @@ def vjoin(a, b):
         return Node(lv_join(a.level, b.level), a.checked and b.checked, a.admitted and b.admitted, a.rec and b.rec)
     if vkey(a) == vkey(b):
         return a
+    for x, y in ((a, b), (b, a)):
+        if isinstance(x, Node) and y == MAXNONE:
+            return OptNode(x)
+        if isinstance(x, OptNode) and (y == MAXNONE or isinstance(y, (Node, OptNode))):
+            other = y.node if isinstance(y, OptNode) else y
+            return x if y == MAXNONE else OptNode(vjoin(x.node, other))
     for x, y in ((a, b), (b, a)):
         if isinstance(x, Seq) and x.level is None and isinstance(y, tuple) and y and y[0] == "gen":
             return y
@@ -580,6 +600,13 @@ class IterFlow:
             lv = self.ev(f, c.left, env, facts, False, n)
             rv = self.ev(f, c.comparators[0], env, facts, False, n)
             op = type(c.ops[0])
+            # `start is None` on a node-or-None value
+            for a, b, side in ((lv, rv, c.left), (rv, lv, c.comparators[0])):
+                if isinstance(a, OptNode) and b == MAXNONE and op in (ast.Is, ast.IsNot) and isinstance(side, ast.Name):
+                    is_none = o if op is ast.Is else not o
+                    env2 = dict(env)
+                    env2[side.id] = MAXNONE if is_none else a.node
+                    return (env2, facts)
             # `maxlevel is None` / `is not None`
             for a, b in ((lv, rv), (rv, lv)):
                 if isinstance(a, tuple) and a[0] == "max" and b == MAXNONE and op in (ast.Is, ast.IsNot):
